@@ -43,6 +43,8 @@ type World struct {
 	tempK, tempE string   // snapshot paths of the pending temp object on each side
 	chdirPath    string   // what the last successful Chdir reached (kernel view)
 	FastReads    bool     // skip the tree comparison after read-only calls
+	asUser       avfs.UserReader
+	asIdent      *Ident
 }
 
 // NewVFS creates a fresh Linux-typed emulated file system of the kind.
@@ -261,8 +263,20 @@ func permClass(p uint32) string {
 func (w *World) Step(prop string, o fsx.Op) (oe, ok fsx.Out, dev *vt.Deviation) {
 	sit := w.Situation(prop, o)
 	prevCwd := w.Cwd
-	w.Kdo(func() { ok = w.K.Do(o) })
-	oe = w.doE(o)
+	if w.asIdent != nil {
+		// identity switch for the duration of the call only
+		w.Kdo(func() {
+			_ = kernel.SetFS(w.asIdent.Uid, w.asIdent.Gid, []int{})
+			ok = w.K.Do(o)
+			_ = kernel.SetFS(0, 0, []int{})
+		})
+		_ = w.V.SetUser(w.asUser)
+		oe = w.doE(o)
+		_ = w.V.SetUser(w.Idm.AdminUser())
+	} else {
+		w.Kdo(func() { ok = w.K.Do(o) })
+		oe = w.doE(o)
+	}
 	mk := func(exp, obs, detail string) *vt.Deviation {
 		d := &vt.Deviation{Fields: map[string]string{}}
 		for k, v := range sit {
@@ -416,3 +430,47 @@ func newPath(old, cur fsx.Snap) string {
 }
 
 var readOnly = map[string]bool{"Stat": true, "Lstat": true, "ReadFile": true, "ReadDir": true, "EvalSymlinks": true, "Readlink": true, "Getwd": true, "WalkDir": true, "Glob": true, "Mtime": true}
+
+// Users of the permission checks: numeric ids are the ones MemIdm hands out
+// (1001, 1002, ...); the kernel needs no passwd entries for them.
+type Ident struct {
+	Uid, Gid int
+}
+
+// SetupUsers creates g1, g2 and u1 (g1), u2 (g1), u3 (g2) in the identity
+// manager of the emulated file system and returns their ids.
+func (w *World) SetupUsers() (map[string]Ident, error) {
+	if w.Idm == nil {
+		return nil, fmt.Errorf("no identity manager")
+	}
+	ids := map[string]Ident{"root": {0, 0}}
+	for _, g := range []string{"g1", "g2"} {
+		if _, err := w.Idm.AddGroup(g); err != nil {
+			return nil, err
+		}
+	}
+	for _, u := range [][2]string{{"u1", "g1"}, {"u2", "g1"}, {"u3", "g2"}} {
+		ur, err := w.Idm.AddUser(u[0], u[1])
+		if err != nil {
+			return nil, err
+		}
+		ids[u[0]] = Ident{ur.Uid(), ur.Gid()}
+	}
+	return ids, nil
+}
+
+// StepAs issues the op under the given identity on both sides (MemFS:
+// SetUser, kernel: setfsuid/setfsgid on the oracle thread, no supplementary
+// groups) and switches back to the administrator before the trees are compared.
+func (w *World) StepAs(prop string, o fsx.Op, id Ident) (oe, ok fsx.Out, dev *vt.Deviation) {
+	if id.Uid == 0 {
+		return w.Step(prop, o)
+	}
+	u, err := w.Idm.LookupUserId(id.Uid)
+	if err != nil {
+		return oe, ok, &vt.Deviation{Fields: map[string]string{"prop": prop, "harness": "unknown-uid"}, Detail: err.Error()}
+	}
+	w.asUser, w.asIdent = u, &id
+	defer func() { w.asUser, w.asIdent = nil, nil }()
+	return w.Step(prop, o)
+}
